@@ -42,7 +42,7 @@ def make_args(vw_kwargs: Dict[str, Any], namespace_interactions: Sequence[str] =
     for interaction in interactions:
         args.append(f"--interactions {interaction}")
 
-    for ignore in ignore_linear:
+    for ignore in sorted(ignore_linear):
         args.append(f"--ignore_linear {ignore}")
 
     return args
